@@ -244,7 +244,7 @@ func (h *Handler) saltAuthToken(req *http.Request, remote string) (updatedReq *h
 
 	creds := auth.NewCredentials()
 	creds.LoadTokensFromHTTPRequest(updatedReq)
-	if updatedReq.Header.Get("Content-Type") == "application/x-www-form-urlencoded" && updatedReq.Body != nil {
+	if ct, _, err := mime.ParseMediaType(updatedReq.Header.Get("Content-Type")); err == nil && ct == "application/x-www-form-urlencoded" && updatedReq.Body != nil {
 		// Look for api_token in the form body even if a token
 		// was found elsewhere, whatever the request method.
 		buf, err := ioutil.ReadAll(http.MaxBytesReader(nil, updatedReq.Body, 1<<28)) // 256MiB. TODO: use MaxRequestSize from discovery doc or config.
